@@ -14,8 +14,9 @@
       `parent_type.field_map`, which does not know the meta fields, `TypeInfoVisitor` through `_get_field_def`:
       `ParentsAgree` is FALSE for such documents (counted, not compared on the clause);
     * `SchemaOutputs s`: every field of the schema has an output type (schema validation).
-  ParentsAgree, the `ssid == fid` shortcut, NoCrash are all DERIVED (from the clauses of UniqueFragmentNames,
-  NoFragmentCycles, ScalarLeafs, FragmentsOnCompositeTypes - available on both sides of the equivalence).
+  Of `OverlapHyps`: ParentsAgree is DERIVED (from the clauses of ScalarLeafs and FragmentsOnCompositeTypes - available on
+  both sides of the equivalence); "the `ssid == fid` shortcut is not taken" and NoCrash are NOT NEEDED for the memoised
+  search (`Props/C06_overlap_memo_complete.lean`: the shortcut may be taken, the search terminates on every document).
 -/
 import PyGqlModel.Props.C06_head
 import PyGqlModel.Props.C06_overlap_memo_complete
@@ -57,7 +58,6 @@ theorem accepted_spec_valid_all_memo (s : SchemaD) (fx : Fixes) (hfx : HeadVars 
   by_cases ho : r = .overlappingFieldsCanBeMerged
   · subst ho
     exact (rule_overlapping_fields_memo_iff_wf s fx hfx.2.2.2 d hd.checks hd.names hs
-      (h25 .uniqueFragmentNames (by decide) (by decide)) (h25 .noFragmentCycles (by decide) (by decide))
       (h25 .scalarLeafs (by decide) (by decide)) (h25 .fragmentsOnCompositeTypes (by decide) (by decide))).mp
       (silentM_overlap.mp (h _ hr))
   · exact h25 r hr ho
@@ -106,7 +106,6 @@ theorem attribution_all_memo (s : SchemaD) (fx : Fixes) (hfx : HeadVars fx) (hs 
     by_cases ho : r = .overlappingFieldsCanBeMerged
     · subst ho
       exact (rule_overlapping_fields_memo_iff_wf s fx hfx.2.2.2 d hd.checks hd.names hs
-        (hothers .uniqueFragmentNames (by decide) (by decide)) (hothers .noFragmentCycles (by decide) (by decide))
         (hothers .scalarLeafs (by decide) (by decide)) (hothers .fragmentsOnCompositeTypes (by decide) (by decide))).mp
         (silentM_overlap.mp hsil)
     · have hsil' := (silentM_of_ne ho).mp hsil
@@ -171,11 +170,34 @@ example : (overlapMemoRun pSchema Fixes.all (pDoc pF1 pF2 pF3)).1 = 0 ↔
   have hne : NamesNonEmpty (pDoc pF1 pF2 pF3) := fun f hf => by
     simp only [Spec.fragNames, pDoc] at hf
     revert f; decide
-  have hnd : (Spec.fragNames (pDoc pF1 pF2 pF3)).Nodup := by decide
   exact rule_overlapping_fields_memo_iff_wf pSchema Fixes.all rfl _ ⟨by decide, by decide⟩ hne
-    (schemaOutputs_of_check _ (by decide)) hnd
-    ((rule_no_fragment_cycles_iff pSchema Fixes.all rfl _ hnd hne).mp (by unfold Silent; decide +kernel))
+    (schemaOutputs_of_check _ (by decide))
     ((rule_scalar_leafs_iff pSchema Fixes.all _).mp (by unfold Silent; decide +kernel))
     ((rule_fragments_on_composite_types_iff pSchema Fixes.all _).mp (by unfold Silent; decide +kernel))
+
+/-- non-vacuity on a CYCLIC document, where `_conflicts_between_fields_and_fragment` takes the
+    `field_map is fragment_field_map` shortcut and the un-memoised search exhausts its fuel
+    (`hunt_doc_crashes_unmemoised`): `{ ...F } fragment F on Query { q { q { ...F } ...F } }` - every hypothesis of
+    `rule_overlapping_fields_memo_iff_wf` holds, the memoised rule is silent, so the clause of 5.3.2 holds (the document's
+    only violation is the fragment cycle) -/
+example : Spec.overlappingFieldsCanBeMerged hSchema hDoc := by
+  have hne : NamesNonEmpty hDoc := fun f hf => by
+    simp only [Spec.fragNames, hDoc] at hf
+    revert f; decide
+  exact (rule_overlapping_fields_memo_iff_wf hSchema Fixes.all rfl _ ⟨by decide, by decide⟩ hne
+    (schemaOutputs_of_check _ (by decide))
+    ((rule_scalar_leafs_iff hSchema Fixes.all _).mp (by unfold Silent; decide +kernel))
+    ((rule_fragments_on_composite_types_iff hSchema Fixes.all _).mp (by unfold Silent; decide +kernel))).mp
+    (by decide +kernel)
+
+/-- ... and with a conflict inside the cycle (`… a: b a: q`) the memoised rule reports and the clause fails -/
+example : let dc : Doc := ⟨[opV [] 1 [.spread "F" []],
+      .frag "F" "Query" [] 2 [.field none "q" [] [] true 3 [.field none "q" [] [] true 4 [.spread "F" []], .spread "F" []],
+        .field (some "a") "b" [] [] false 0 [], .field (some "a") "q" [] [] false 0 []]]⟩
+    ¬ Spec.overlappingFieldsCanBeMerged hSchema dc := by
+  intro dc H
+  have := overlap_memo_no_false_alarm hSchema Fixes.all rfl dc H
+  revert this
+  decide +kernel
 
 end PyGql.Props.C06
